@@ -119,11 +119,14 @@ def worker(args):
             seen: Dict[str, int] = {}
             found = False
             for o in rres.obligations:
-                if o["status"] == "failed" and o["model"] and not o.get("known"):
+                candidate = o["status"] == "unknown" and o["model"] and str(o.get("detail", "")).startswith("candidate model")
+                if (o["status"] == "failed" or candidate) and o["model"] and not o.get("known"):
                     if seen.get(o["name"], 0) >= 4 or o["name"] in done:
                         continue
                     seen[o["name"]] = seen.get(o["name"], 0) + 1
                     r = rp.replay(key, o["model"], o)
+                    if candidate and not r.get("reproduced"):
+                        continue  # an unconfirmed candidate is not a counter-model
                     uf = [l for l in list(rres.log) + list(res.log) if l.startswith("UFUN-ASSUMED")]
                     if r.get("reproduced") is False and uf:
                         # the native state cannot be made to agree with the model on values the proof takes from an
